@@ -247,10 +247,15 @@ def _warm():
 
 
 def _setup_lines():
-    import mpservice.queue as mq
-    from vf import linemon
+    # optional observer: if the module has been renamed/moved the family still runs, with lock/blocking preemption points only
+    try:
+        import importlib
 
-    linemon.install([mq.__file__])
+        from vf import linemon
+
+        linemon.install([importlib.import_module('mpservice.queue').__file__])
+    except Exception:
+        pass
     _warm()
 
 
